@@ -121,7 +121,16 @@ def run(prop, tier, seed, replay, work, t0):
     for p in aud['problems']:
         broken.append({'what': 'proof obligation', 'detail': p})
     # optional source-derived obligations (constants extracted from /repo, checked by Lean)
-    gen_info = None
+    recheck = None
+    if tier == 'thorough' and ok:
+        # independent re-check of the compiled proofs by the toolchain's leanchecker
+        import subprocess
+        q = subprocess.run(['lake', 'env', 'leanchecker', 'ScalesModel.Props.' + prop], cwd=lib.LEAN,
+                           stdout=subprocess.PIPE, stderr=subprocess.STDOUT, text=True, timeout=3000)
+        recheck = {'cmd': 'lake env leanchecker ScalesModel.Props.' + prop, 'exit': q.returncode,
+                   'output': q.stdout.strip()[-300:]}
+        if q.returncode != 0:
+            broken.append({'what': 'leanchecker rejected the compiled proofs', 'detail': q.stdout[-800:]})
     gen_info = lib.source_obligations(prop, mod, work)
     if gen_info is not None:
         for p in gen_info.get('problems', []):
@@ -270,6 +279,8 @@ def run(prop, tier, seed, replay, work, t0):
     }
     if gen_info:
         coverage['source_derived'] = gen_info.get('info')
+    if recheck:
+        coverage['leanchecker'] = recheck
     ev = {
         'property_id': prop, 'tier': tier, 'seed': seed, 'level': 'proof', 'coverage': coverage,
         'assumptions': list(getattr(mod, 'ASSUMPTIONS', [])),
